@@ -23,6 +23,11 @@ def make(kind_name, factor=None):
     if kind_name.startswith("bal:"):
         # "bal:<kind>" default strategy; "bal:cycle:<kind>", "bal:npoints:<kind>", "bal:loss:<kind>"
         parts = kind_name.split(":")
+        if "ds" in parts[1:-1]:
+            # "bal:ds:<kind>" / "bal:<strategy>:ds:<kind>": a BalancingLearner over DataSaver-wrapped children
+            kids = [make("ds:" + parts[-1], factor) for _ in range(3)]
+            strat = parts[1] if parts[1] != "ds" else "loss_improvements"
+            return adaptive.BalancingLearner(kids, strategy=strat)
         k = L.KINDS[parts[-1]]
         kids = [k.make() for _ in range(3)]
         for c in kids:
@@ -51,7 +56,8 @@ def value_of(kind_name, p):
     if kind_name.startswith("bal:"):
         i, x = p
         v = k.fn(x)
-        return v + 0.25 * i if isinstance(v, float) else v
+        v = v + 0.25 * i if isinstance(v, float) else v
+        return {"y": v, "aux": L.canon(x)} if ":ds:" in kind_name else v
     if kind_name.startswith("ds:"):
         return {"y": k.fn(p), "aux": L.canon(p)}
     return k.fn(p)
